@@ -10,7 +10,7 @@ Driver for C03 (aggregate functions).  The model definitions are instantiated at
 (binary64, the operations Go performs, in the same order); floats cross as their bit patterns.
 
 Three kinds of cases (cfg `mode`):
-* `direct` : one aggregator object — ops `new`, `add <val>`; obs `r <result>` after each op;
+* `direct` : one aggregator object — ops `new`, `add <val>`, `perm rev|rot k`; obs `r <result>` after each op;
 * `ga`     : one `GroupAggregator` — ops `row <k v …>`, `results`, `reset`;
 * `sql`    : a query with `CountingWindow(N)` — ops `row <k v …>`, final `flush`
              (obs: the result rows of every batch, in arrival order).
@@ -130,38 +130,59 @@ def parseRow : List String → Option (Row Float)
     let r ← parseRow rest
     some ((k', v') :: r)
 
-def numOf (e : Env Float) (c : Option (Val Float)) : Option Float :=
+/-- a numeric operand of an arithmetic expression: Go int / int64, or float64 -/
+inductive Num where
+  | i (v : Int)
+  | f (x : Float)
+
+def numOf (c : Option (Val Float)) : Option Num :=
   match c with
-  | some (.int i) => some (Float.ofInt i)
-  | some (.flt x) => some x
-  | _ => let _ := e; none
+  | some (.int i) => some (.i i)
+  | some (.flt x) => some (.f x)
+  | _ => none
+
+def Num.toF : Num → Float
+  | .i v => Float.ofInt v
+  | .f x => x
+
+/-- the expression engine (expr-lang) computes int∘int in integers and everything else in float64 -/
+def arith (fi : Int → Int → Int) (ff : Float → Float → Float) : Num → Num → Num
+  | .i a, .i b => .i (fi a b)
+  | a, b => .f (ff a.toF b.toF)
+
+def Num.val : Num → Val Float
+  | .i v => .int v
+  | .f x => .flt x
 
 /-- harness / SQL expression shapes.  `mul1`: `a*b+1`, `mul`: `a*b`, `sub`: `a-b`, `dbl`: `a*2`
-(error when an operand is missing, NULL or not a number); `nilmul`: `a*b`, NULL when an operand
-is missing or NULL, `pick`: the value of `a`, NULL when `b` is missing or NULL, error when `a` is
-missing (harness closures of the `ga` mode); `path`: a nested path evaluated by the
-expression engine (missing ⇒ NULL). -/
-def evalShape (e : Env Float) (shape : String) (a b : Agg.Str) : Eval Float := fun row =>
+(error when an operand is missing, NULL or not a number; int∘int stays an int).
+Harness closures of the `ga` mode (always float64): `mul1`, `nilmul`: `a*b`, NULL when an operand
+is missing or NULL; `pick`: the value of `a`, NULL when `b` is missing or NULL, error when `a` is
+missing.  `path`: a nested path evaluated by the expression engine (missing ⇒ NULL). -/
+def evalShape (sqlMode : Bool) (shape : String) (a b : Agg.Str) : Eval Float := fun row =>
+  let fin (n : Num) : Val Float := if sqlMode then n.val else .flt n.toF
   match shape with
-  | "mul1" => match numOf e (lookup a row), numOf e (lookup b row) with
-    | some x, some y => some (.flt (x * y + 1.0))
+  | "mul1" => match numOf (lookup a row), numOf (lookup b row) with
+    | some x, some y =>
+      if sqlMode then some (fin (arith (· + ·) (· + ·) (arith (· * ·) (· * ·) x y) (.i 1)))
+      else some (.flt (x.toF * y.toF + 1.0))
     | _, _ => none
-  | "mul" => match numOf e (lookup a row), numOf e (lookup b row) with
-    | some x, some y => some (.flt (x * y))
+  | "mul" => match numOf (lookup a row), numOf (lookup b row) with
+    | some x, some y => some (fin (arith (· * ·) (· * ·) x y))
     | _, _ => none
-  | "sub" => match numOf e (lookup a row), numOf e (lookup b row) with
-    | some x, some y => some (.flt (x - y))
+  | "sub" => match numOf (lookup a row), numOf (lookup b row) with
+    | some x, some y => some (fin (arith (· - ·) (· - ·) x y))
     | _, _ => none
-  | "dbl" => match numOf e (lookup a row) with
-    | some x => some (.flt (x * 2.0))
+  | "dbl" => match numOf (lookup a row) with
+    | some x => some (fin (arith (· * ·) (· * ·) x (.i 2)))
     | none => none
   | "nilmul" => match lookup a row, lookup b row with
     | none, _ => some .null
     | _, none => some .null
     | some .null, _ => some .null
     | _, some .null => some .null
-    | ca, cb => match numOf e ca, numOf e cb with
-      | some x, some y => some (.flt (x * y))
+    | ca, cb => match numOf ca, numOf cb with
+      | some x, some y => some (.flt (x.toF * y.toF))
       | _, _ => none
   | "pick" => match lookup a row, lookup b row with
     | none, _ => none
@@ -174,7 +195,7 @@ def evalShape (e : Env Float) (shape : String) (a b : Agg.Str) : Eval Float := f
   | _ => none
 
 /-- `field <alias> <kind> <p|-> <nth> <input…>` -/
-def parseField (e : Env Float) : List String → Option (Field Float)
+def parseField (sqlMode : Bool) : List String → Option (Field Float)
   | alias :: kind :: p :: nth :: input => do
     let alias' ← unhex alias
     let k ← kindOf kind
@@ -184,15 +205,16 @@ def parseField (e : Env Float) : List String → Option (Field Float)
       | ["star"] => some Input.star
       | ["col", c] => (unhex c).map Input.col
       | [shape, a, b] => match unhex a, unhex b with
-        | some a', some b' => some (Input.expr (evalShape e shape a' b'))
+        | some a', some b' => some (Input.expr (evalShape sqlMode shape a' b'))
         | _, _ => none
       | _ => none
     some { alias := alias', kind := k, prm := ⟨p', n⟩, input := inp }
   | _ => none
 
-def fieldsOf (e : Env Float) (cfg : List (List String)) : List (Field Float) :=
+def fieldsOf (cfg : List (List String)) : List (Field Float) :=
+  let sqlMode := (cfgVal cfg "mode").bind (·.head?) == some "sql"
   cfg.filterMap fun l => match l with
-    | "field" :: rest => parseField e rest
+    | "field" :: rest => parseField sqlMode rest
     | _ => none
 
 def groupCols (cfg : List (List String)) : List Agg.Str :=
@@ -206,7 +228,7 @@ def keyTokens (cols : List Agg.Str) (row : Row Float) : List String :=
 
 def mkCfg (cfg : List (List String)) : Cfg Float (List String) :=
   let e := (readTables cfg).env
-  { env := e, fields := fieldsOf e cfg, keyOf := keyTokens (groupCols cfg) }
+  { env := e, fields := fieldsOf cfg, keyOf := keyTokens (groupCols cfg) }
 
 def renderGroup (fields : List (Field Float)) (g : List String × List (Agg.Str × Res Float)) : List String :=
   let kinds := fields.map (·.kind)
@@ -237,6 +259,20 @@ def inputTag (e : Env Float) (k : Kind) (v : Val Float) : String :=
   | .int _ => "in-int"
   | .flt x => if x.isNaN then "in-nan" else if x == 0.0 then "in-zero" else if x < 0.0 then "in-negative-float" else "in-float"
 
+/-- all usable inputs are integers of small magnitude: every partial sum is exact in float64 -/
+def exactInts (e : Env Float) (l : List (Val Float)) : Bool :=
+  l.all fun v => match v with
+    | .int i => i.natAbs < 1048576
+    | .bool _ => true
+    | .null => true
+    | .str _ => (toFloat e v).isNone
+    | .flt _ => false
+
+/-- aggregates whose float64 result is a function of exact sums / order statistics only -/
+def permInvariantExact : Kind → Bool
+  | .count | .sum | .avg | .min | .max | .median | .percentile => true
+  | _ => false
+
 def runDirect (c : Case) : CaseOut := Id.run do
   let e := (readTables c.cfg).env
   let some k := ((cfgVal c.cfg "kind").bind (·.head?)).bind kindOf
@@ -253,6 +289,20 @@ def runDirect (c : Case) : CaseOut := Id.run do
     let ok ← match op with
       | ["new"] => do
         st := St.new k; inputs := []; tags := addTag tags "new-from-used-instance"; pure true
+      | ["perm", how, kk] => do
+        -- a fresh instance fed with the same values in another order
+        let before := canonZero k (st.result e prm)
+        let permuted := if how = "rev" then inputs.reverse else inputs.rotateLeft (kk.toNat?.getD 0 % (max inputs.length 1))
+        inputs := permuted
+        st := permuted.foldl (St.add e) (St.new k)
+        tags := addTag tags "permuted"
+        -- where every partial sum is exact (small ints only) float64 addition is associative, so the
+        -- order-insensitive aggregates must not move (permutation invariance, observed on the code)
+        if exactInts e permuted && permInvariantExact k then
+          tags := addTag tags "perm-invariance-checked-exact"
+          if implObs != ["r" :: resToks before] && spec == "ok" then
+            spec := "fail:" ++ ((cfgVal c.cfg "kind").bind (·.head?)).getD "?" ++ "-not-permutation-invariant"
+        pure true
       | ["add", v] => match parseVal v with
         | some v' => do
           st := st.add e v'; inputs := inputs ++ [v']; tags := addTag tags (inputTag e k v'); pure true
